@@ -211,6 +211,9 @@ class SlicesSplit(RewriteRuleClassBase):
             return check_result.fail("Last dimension is not equal to End1.")
         if last_dim // 2 != b1[0]:
             return check_result.fail("Last dimension is not equal to Begin1.")
+        if last_dim % 2 != 0:
+            # Split(num_outputs=2) gives the extra element to the first output.
+            return check_result.fail("Last dimension is odd: Split would not cut at Begin1.")
         return check_result
 
     def rewrite(self, op, x, begin0, end0, axes0, begin1, end1, axes1):
